@@ -87,14 +87,14 @@ def build_impl():
     """Copy /repo's working tree to a scratch directory (keyed by content hash),
     build the extension there and return the directory."""
     key = repo_hash()
-    dst = SCRATCH_ROOT / ('impl-' + key)
-    with locked('impl'):
+    tag = hashlib.sha256(str(REPO.resolve()).encode()).hexdigest()[:6]
+    dst = SCRATCH_ROOT / ('impl-%s-%s' % (tag, key))
+    with locked('impl-' + tag):
         if (dst / '.built').exists():
             return dst
-        for old in SCRATCH_ROOT.glob('impl-*'):
-            if not list(old.glob('.inuse-*')) or True:
-                # other keys are stale: the tree changed
-                shutil.rmtree(old, ignore_errors=True)
+        for old in SCRATCH_ROOT.glob('impl-%s-*' % tag):
+            # other keys of the same source tree are stale: the tree changed
+            shutil.rmtree(old, ignore_errors=True)
         dst.mkdir(parents=True)
         for f in _repo_files():
             if f.startswith(('docs/', 'dev/', '.github/')):
@@ -175,7 +175,7 @@ def regenerate(targets=None):
 
 def coq_make(vo_targets, timeout=1500):
     """Full .vo build of the given targets (and what they depend on)."""
-    with locked('coq'):
+    with locked('coq-' + hashlib.sha256(str(COQ).encode()).hexdigest()[:6]):
         gen_coqproject()
         cmd = ['timeout', str(timeout), 'make', '-j%d' % NCPU] + list(vo_targets)
         rc, out = sh(cmd, cwd=COQ, timeout=timeout + 30)
